@@ -205,6 +205,17 @@ impl<T> Collector<T> {
     #[verifier::external_body]
     pub fn finish(self) -> (r: NameMap<T>) ensures r.m@ == self.m@ { unimplemented!() }
 }
+// other members of Policies (mod.rs) that changes to these functions plausibly call: ASSUMED contracts
+impl Policies<Evaluated> {
+    #[verifier::external_body]
+    pub fn succeeded(&self) -> (r: usize) { unimplemented!() }
+}
+impl<T> Policies<T> {
+    #[verifier::external_body]
+    pub fn len(&self) -> (r: usize) { unimplemented!() }
+    #[verifier::external_body]
+    pub fn default() -> (r: Self) ensures r.map.m@ == Map::<u64, T>::empty() { unimplemented!() }
+}
 spec fn kept(o: Map<u64, Evaluated>, s: Map<u64, Candidate>) -> bool {
     forall|n: u64| #[trigger] o.contains_key(n) ==> s.contains_key(n) && o[n].filter_expr == s[n].filter_expr
 }
